@@ -83,7 +83,7 @@ var properties = map[string]*Property{
 		Harnesses: []Harness{{
 			Name: "time-sim", Property: "C10", Pkg: "./internal/verifsim/timesim", Test: "TestVerifC10",
 			Dirs:  append([]string{"internal/verifsim/timesim"}, exportDirs...),
-			Files: []string{"zz_verif_env_test.go", "zz_verif_crypto_test.go", "zz_verif_c10_test.go"},
+			Files: []string{"zz_verif_env_test.go", "zz_verif_c10_test.go"},
 			CPU1:  true,
 			Quick:    Tier{Runs: 6000, BudgetS: 120},
 			Thorough: Tier{Runs: 300000, BudgetS: 1500},
@@ -103,7 +103,7 @@ var properties = map[string]*Property{
 		Harnesses: []Harness{{
 			Name: "time-sim-c11", Property: "C11", Pkg: "./internal/verifsim/timesim", Test: "TestVerifC11",
 			Dirs:  append([]string{"internal/verifsim/timesim"}, exportDirs...),
-			Files: []string{"zz_verif_env_test.go", "zz_verif_crypto_test.go", "zz_verif_c11_test.go"},
+			Files: []string{"zz_verif_env_test.go", "zz_verif_c11_test.go"},
 			CPU1:  true,
 			Quick:    Tier{Runs: 3000, BudgetS: 120},
 			Thorough: Tier{Runs: 150000, BudgetS: 1500},
@@ -117,5 +117,47 @@ var properties = map[string]*Property{
 			"map iteration order cannot be seeded in Go: effectiveness is decided by 24 repetitions per case (a two-entry map disagrees with probability 1-2^-24)",
 		},
 		MustBePositive: []string{"time-sim-c11/effectiveness-checks", "time-sim-c11/allowed:remote-authorizer", "time-sim-c11/allowed:contextualizer", "time-sim-c11/allowed:generic-authn", "time-sim-c11/allowed:introspection", "time-sim-c11/allowed:jwt-finalizer", "time-sim-c11/allowed:client-credentials"},
+	},
+	"C01": {
+		ID: "C01",
+		Harnesses: []Harness{{
+			Name: "pipeline-sim", Property: "C01", Pkg: "./internal/verifsim/pipesim", Test: "TestVerifPipe",
+			Dirs:       append([]string{"internal/verifsim/pipesim"}, exportDirs...),
+			Files:      []string{"zz_verif_pipe_test.go"},
+			Instrument: []string{"internal/handler/proxy/request_context.go:dialer"},
+			Params:     map[string]string{"prop": "C01"},
+			Quick:      Tier{Runs: 12000, BudgetS: 120},
+			Thorough:   Tier{Runs: 600000, BudgetS: 1500},
+		}},
+		Rule: "one case = one seeded pipeline (1-3 authenticators of all types incl. fallback variants, 0-3 authorizers/contextualizers and 0-2 finalizers with true/false/erroring `if` conditions and continue-on-error, 0-3 error handlers default/redirect/www_authenticate with applicable/non-applicable/erroring conditions) loaded through the real parser and processor, 1-3 requests with seeded credentials per authenticator kind and a per-party fault plan (status, refuse, reset, timeout, delay, duplicate, panic), sent through one of the three real entry points. Non-trivial = a request whose ground truth is 'must not be allowed'; distinct = distinct (entry point, pipeline, credentials, faults).",
+		Real: []string{"config loader, mechanism catalogue (all mechanism types), rule parser, rule factory, repository, executor", "decision HTTP handler chain", "proxy handler chain incl. httputil.ReverseProxy and http.Transport (dialer rewritten to simnet.DialContext)", "Envoy ext_authz gRPC server with its interceptor chain over bufconn", "CEL conditions, error handlers, HTTP/gRPC error translators, recovery"},
+		Stub: []string{"remote parties (simnet handlers) and their transport faults", "upstream: real net/http server over net.Pipe", "cache: heimdall's noop cache (worlds are reused across runs of a process)"},
+		Assumptions: []string{
+			"one fault outcome per party and request, decided before heimdall runs; content-altering faults are excluded here (C19) because they make a step's true outcome unknown",
+			"only the implication 'positive answer => whole pipeline succeeded' (and 'upstream hit => positive and succeeded') is judged; unexpected denials are counted as a reach probe only",
+			"requests with malformed credentials are generated but not judged",
+		},
+		MustBePositive: []string{"pipeline-sim/fault-free-positive", "pipeline-sim/positive:decision", "pipeline-sim/positive:proxy", "pipeline-sim/positive:envoy", "pipeline-sim/probe:panic-injected-on-request-path"},
+	},
+	"C04": {
+		ID: "C04",
+		Harnesses: []Harness{{
+			Name: "pipeline-sim-c04", Property: "C04", Pkg: "./internal/verifsim/pipesim", Test: "TestVerifPipe",
+			Dirs:       append([]string{"internal/verifsim/pipesim"}, exportDirs...),
+			Files:      []string{"zz_verif_pipe_test.go"},
+			Instrument: []string{"internal/handler/proxy/request_context.go:dialer"},
+			Params:     map[string]string{"prop": "C04"},
+			Quick:      Tier{Runs: 12000, BudgetS: 120},
+			Thorough:   Tier{Runs: 600000, BudgetS: 1500},
+		}},
+		Rule: "one case = one seeded chain of 2-4 authenticators (all types, with and without allow_fallback_on_error, often ending in anonymous) plus 1-3 requests carrying none/valid/invalid/malformed credentials per authenticator kind and a per-party fault plan; the reference model classifies every authenticator as none / ok / rejected / remote fault and predicts the winning subject or the stopping point. Non-trivial = the ground truth is a failed chain; distinct = distinct (entry point, pipeline, credentials, faults).",
+		Real: []string{"all six authenticator types and their extractors", "compositeSubjectCreator", "rule factory, repository, executor, the three entry points"},
+		Stub: []string{"identity provider parties (JWKS, introspection, user-info) and their transport faults"},
+		Assumptions: []string{
+			"each authenticator kind reads its own credential carrier (Authorization: Basic, X-Jwt, X-Token, cookie sess) so the class of every authenticator is known to the simulator",
+			"malformed credentials (unparsable token, bad base64) are not classified by the property: such requests are generated but not judged",
+			"a remote fault of an authenticator's party (refuse, timeout, 5xx, reset, panic) counts like a rejection: it stops the chain unless fallback is allowed",
+		},
+		MustBePositive: []string{"pipeline-sim-c04/probe:fallback-happened", "pipeline-sim-c04/probe:authenticator-remote-fault", "pipeline-sim-c04/positive:decision", "pipeline-sim-c04/positive:proxy", "pipeline-sim-c04/positive:envoy"},
 	},
 }
